@@ -97,7 +97,8 @@ Definition minv (m : mat3 T) : mat3 T :=
   let d := mdet m in
   mtr (vdivs (vcross r1 r2) d, vdivs (vcross r2 r0) d, vdivs (vcross r0 r1) d).
 
-(* what _transform_space reads from a diffpy Lattice *)
+(* what orix reads from a diffpy Lattice (base, recbase, metrics), plus diffpy's
+   reciprocal().metrics, which can raise *)
 Record lattice : Type := mkLattice {
   l_base : mat3 T;                 (* lattice.base *)
   l_recbase : mat3 T;              (* lattice.recbase *)
